@@ -54,6 +54,18 @@ a norm that is not an mpf triggers a re-run of the same call on a uniformly resc
 range.  normalise=False on such a state cannot be honoured by float64 tensors (the centre tensor would have to carry
 the norm): outside the domain, counted, checked only for 'no exception' and 'the cast was announced by the logged
 warning' (the module's `logger` is wrapped like `sp_linalg`), see RANGE_KEY.
+
+ENTRIES BEYOND 1e+-154 (key TINY_KEY = 'lcf.nonzero-state-with-tiny-or-huge-entries'): qecsim <= bea8d12 took Frobenius norms
+by scipy.linalg.norm on 2-d / 4-d arrays (squares formed in float64), so a non-zero state with entries below ~1e-154 was
+mapped to the zero state and entries above ~1e154 gave norm inf; the repair (`_norm`: an out-of-window result is repeated
+on the ravelled array = scaled nrm2) makes a SECOND norm call, which the recording wrapper merges into the entry of the
+first (one oracle entry per logical norm: `_LinalgProxy.norm`), so the tie holds for both versions of the code.
+`tiny_monitor` (deterministic, 360 cases, str seeds 'T{json}'): O(1) chains with the last / first / a middle tensor times
+1e-170, 1e-200, 1e-300, 1e+170 x lcf / rcf x qr x normalise and truncate — not the zero state, finite norm, norm x result
+= input to 1e-9 (reference by linearity).  EDGE class (`build_edge`, str seeds 'E<int>'): the same class at random (one or
+two tensors times 1e+-(150..300)), IN the domain with all claims whenever the norm of the state stays a float (else the
+RANGE_KEY rule).  `norm_by_squares_wrong` recognises the defect on a call (a norm the code took differs from nrm2 of the
+same array whose norm lies outside 1e+-150): that call's failures are reported under TINY_KEY and it is not tied.
 """
 import json
 import random
@@ -78,7 +90,9 @@ RULE = ('random MPS (bra/ket) and MPO: 1..7 tensors, physical dims 1..3, bonds 1
         'structured site) / BALANCED (5..8 sites with per-site scales 1e+-(42..140), or 40..100 sites with up to '
         '1e+-40, whose partial products along the chain pass 1e+-330 — prefix, suffix, interior, interleaved and '
         'shuffled arrangements — while entries, state norm and final accumulated scale stay well inside the float '
-        'range; every op, qr/svd, normalise mostly False); malformed stream: internal None '
+        'range; every op, qr/svd, normalise mostly False) / EDGE (2..6 sites, one or two tensors times 1e+-(150..300): '
+        'entries whose squares leave the float range; every op, qr/svd, normalise both) / TINY-HUGE family (deterministic: '
+        'last / first / middle tensor times 1e-170, 1e-200, 1e-300, 1e+170 x every op x qr x normalise); malformed stream: internal None '
         'gap, all-None and empty lists, bond mismatch, wrong mask length, chi or tol with qr; ops '
         'left_canonical_form / right_canonical_form (qr and svd, chi in None,0,1..7, tol in None,0,1e-12,1e-3,0.5 and '
         'tol >= 1: 1.0,1.5,1e3 (nothing kept: zero exit), normalise both, masks None/random/all-false/all-true) and '
@@ -96,6 +110,9 @@ TOLS = [None, 0.0, 1e-12, 1e-3, 0.5]
 # of raising IndexError; modelled as a zero-flag step ('Z') in Model/MpsShape.lean.
 TOL_GE1 = [1.0, 1.5, 1e3]
 ISO_TOL = 1e-10
+# a recorded norm outside this window may be repeated by the code on the ravelled array (see _LinalgProxy.norm)
+NORM_LO, NORM_HI = 1e-140, 1e140
+SQUARES_SAFE_LO, SQUARES_SAFE_HI = 1e-150, 1e150
 DENSE_CAP = 60000
 
 
@@ -216,7 +233,8 @@ def build_case(seed):
     """deterministic construction of one case from an integer seed (drawn from ctx.rng by run()); a str seed is a case
     of a SYSTEMATIC class ('S' + JSON spec, see special_specs / build_special)"""
     if isinstance(seed, str):
-        return build_balanced(seed) if seed.startswith('B') else build_special(seed)
+        return build_balanced(seed) if seed.startswith('B') else build_tiny(seed) if seed.startswith('T') else \
+            build_edge(seed) if seed.startswith('E') else build_special(seed)
     rng = random.Random(seed)
     nrng = np.random.default_rng(seed)
     cls = rng.random()
@@ -398,6 +416,221 @@ def build_special(seed):
             'malformed': None, 'zero_exact': spec['cls'] == 'zero', 'mask_kind': spec['mask']}
 
 
+# ------------------------------------------------------------------------------------------ tiny / huge entries
+
+# GENUINE DEFECT of qecsim <= bea8d12 (repaired by `_norm` in tensortools/mps.py): left_canonical_form took Frobenius
+# norms by scipy.linalg.norm on a 2-d / 4-d array, i.e. sqrt(sum x^2) with the squares formed in float64.  Entries below
+# ~1e-154 square to 0 (a NON-ZERO tensor gets norm 0.0 => the zero exit: zeros_like and norm 0), entries above ~1e154
+# square to inf (norm inf, tensors divided to 0, inf * 0 later).  All values involved — the tensors, the state, its norm
+# — are ordinary float64 numbers, and the function keeps its overall norm as an mpf exactly to survive such scales.
+TINY_KEY = 'lcf.nonzero-state-with-tiny-or-huge-entries'
+TINY_FACTORS = [1e-170, 1e-200, 1e-300, 1e170]
+TINY_CHAINS = {
+    'repro3': [(1, 1, 2, 2), (2, 1, 2, 2), (2, 1, 1, 2)],      # default_rng(1).random: the reported reproduction
+    'ket4': SPECIAL_CHAINS['ket4'],
+    'mpo3': SPECIAL_CHAINS['mpo3'],
+}
+TINY_REL = 1e-9
+
+
+def tiny_specs():
+    """the deterministic family of the monitor `tiny_check` (str seeds 'T{json}'): ordinary O(1) chains with ONE tensor
+    (the last / the first / a middle one) multiplied by 1e-170, 1e-200, 1e-300 or 1e+170 x op in lcf / rcf (qr x
+    normalise) and truncate (tol 1e-14 so that it sweeps, nothing is discarded).  The state is non-zero, its norm is
+    ~ the factor: inside the float64 range, like every entry."""
+    out = []
+    for chain in ('repro3', 'ket4', 'mpo3'):
+        L = len(TINY_CHAINS[chain])
+        for f in TINY_FACTORS:
+            for pos in ('last', 'first', 'middle'):
+                base = {'chain': chain, 'factor': f, 'pos': pos}
+                for op in ('lcf', 'rcf'):
+                    for qr in (True, False):
+                        for nm in (True, False):
+                            out.append(dict(base, op=op, qr=qr, normalise=nm, chi=None, tol=None))
+                out.append(dict(base, op='trunc', qr=False, normalise=False, chi=None, tol=1e-14))
+                out.append(dict(base, op='trunc', qr=False, normalise=False, chi=8, tol=1e-14))
+    return out
+
+
+def tiny_seed(spec):
+    return 'T' + json.dumps(spec, sort_keys=True)
+
+
+def build_tiny(seed):
+    """case of the tiny / huge family; case['base'] = the O(1) tensors before the one factor was applied, case['site']
+    = the index (within the run) of the scaled tensor"""
+    spec = json.loads(seed[1:])
+    shapes = TINY_CHAINS[spec['chain']]
+    nrng = np.random.default_rng(1)
+    # entries in (0, 1) as in the reproduction; the other chains get signs and stay away from 0 (no denormal product
+    # at factor 1e-300: every |entry| * factor >= 1e-303 ... the repro tensors are checked in tiny_check)
+    if spec['chain'] == 'repro3':
+        base = [nrng.random(s) for s in shapes]
+    else:
+        base = [(0.25 + nrng.random(s)) * nrng.choice([-1.0, 1.0], size=s) for s in shapes]
+    L = len(base)
+    site = {'last': L - 1, 'first': 0, 'middle': L // 2}[spec['pos']]
+    tensors = [t.copy() for t in base]
+    tensors[site] = tensors[site] * spec['factor']
+    kind = 'mpo' if spec['chain'].startswith('mpo') else 'ket'
+    return {'seed': seed, 'kind': kind, 'style': 'class:tiny-huge', 'mps': tensors, 'op': spec['op'], 'chi': spec['chi'],
+            'tol': spec['tol'], 'qr': spec['qr'], 'normalise': spec['normalise'], 'mask': None, 'malformed': None,
+            'zero_exact': False, 'base': base, 'site': site, 'factor': spec['factor']}
+
+
+def tiny_check(case):
+    """the property on one case of the tiny / huge family, evaluated on the real code with NO recording wrapper and
+    numpy's default error state (what a caller has): returns a description of the failure, else None.
+    Required: no exception; documented result type; no NaN / inf; NOT the zero state; a finite norm > 0; and
+    (returned norm, 1 when none is returned) x dense(result) = dense(input) to relative 1e-9.
+    Reference without any arithmetic at the extreme scale: the input is (O(1) base tensors, ONE of them times the factor
+    f), so by linearity dense(input) = f * dense(base) up to the 1e-16 rounding of the products entry * f (checked: no
+    product is denormal); the result is compared as rho * dense(unit-Frobenius result tensors) with rho = norm * prod
+    |out_i|_F / f formed in mpmath."""
+    from qecsim.tensortools import mps as M
+    mps, op = [t.copy() for t in case['mps']], case['op']
+    f = case['factor']
+    sc = case['mps'][case['site']]
+    if np.any((sc != 0) & (np.abs(sc) < 1e-305)) or not np.all(np.isfinite(sc)):
+        return None                                   # not a member of the class (denormal / overflowed input entries)
+    call = '{}(qr={}, normalise={}, chi={}, tol={}) on O(1) tensors with tensor {} times {:g}'.format(
+        {'lcf': 'left_canonical_form', 'rcf': 'right_canonical_form', 'trunc': 'truncate'}[op], case['qr'],
+        case['normalise'], case['chi'], case['tol'], case['site'], f)
+    try:
+        with np.errstate(all='ignore'):
+            if op == 'lcf':
+                res = M.left_canonical_form(mps, chi=case['chi'], tol=case['tol'], qr=case['qr'],
+                                            normalise=case['normalise'])
+            elif op == 'rcf':
+                res = M.right_canonical_form(mps, chi=case['chi'], tol=case['tol'], qr=case['qr'],
+                                             normalise=case['normalise'])
+            else:
+                res = M.truncate(mps, chi=case['chi'], tol=case['tol'])
+    except Exception as ex:  # noqa: BLE001
+        return '{}: raised {!r}'.format(call, ex)[:300]
+    rp = result_problem(op, case['normalise'], res, mps)
+    if rp:
+        return '{}: {}'.format(call, rp)
+    out, norm = res if (op == 'trunc' or case['normalise']) else (res, None)
+    if shapes_of(out) and [s[1::2] for s in shapes_of(out)] != [s[1::2] for s in shapes_of(mps)]:
+        return '{}: physical dimensions changed'.format(call)
+    with mp.workprec(120), np.errstate(all='ignore'):
+        nrm = mp.mpf(1)
+        if norm is not None:
+            try:
+                nrm = mp.mpf(norm)
+            except (TypeError, ValueError):
+                return '{}: returned norm {!r} is not a number'.format(call, norm)
+            if not mp.isfinite(nrm):
+                return '{}: returned norm is {!r} (|state| = {:.3e}: finite)'.format(
+                    call, norm, float(f) * fro(dense(case['base'])))
+        if not finite(out):
+            return '{}: NaN / inf in the returned tensors (the state is finite, |state| ~ {:g})'.format(call, f)
+        if all_zero(out) or nrm == 0:
+            return ('{}: returned {} with norm {} — a NON-ZERO state (|state| = {:.6e}, every entry a normal float64) '
+                    'mapped to the zero state'.format(call, 'zero tensors' if all_zero(out) else 'non-zero tensors',
+                                                      'none returned' if norm is None else mp.nstr(nrm, 6),
+                                                      float(f) * fro(dense(case['base']))))
+        d_ref = dense(case['base'])
+        t_out, a_out = unitised(out)
+        d_out = dense(t_out)
+        if d_out.shape != d_ref.shape:
+            return '{}: open dimensions changed'.format(call)
+        rho = nrm * a_out / mp.mpf(f)
+        if not mp.isfinite(rho) or abs(rho) > mp.mpf('1e30'):
+            return '{}: norm x result is {} times too large'.format(call, mp.nstr(rho, 6))
+        rel = fro(d_ref - float(rho) * d_out) / fro(d_ref)
+    if not rel <= TINY_REL:
+        return '{}: |input - norm x result| / |input| = {:.3e} > {:g} (returned norm {})'.format(
+            call, rel, TINY_REL, 'none' if norm is None else mp.nstr(nrm, 12))
+    return None
+
+
+def tiny_monitor(ctx, stats):
+    """runs the whole family (deterministic, every run) and reports under TINY_KEY"""
+    for spec in tiny_specs():
+        case = build_tiny(tiny_seed(spec))
+        what = tiny_check(case)
+        stats['tiny_or_huge_entries'] = stats.get('tiny_or_huge_entries', 0) + 1
+        ctx.count('tiny_huge.factor/pos', '{:g}/{}'.format(spec['factor'], spec['pos']))
+        ctx.count('tiny_huge.op/qr/normalise', '{}/qr={}/normalise={}'.format(spec['op'], int(spec['qr']),
+                                                                             int(spec['normalise'])))
+        ctx.count('tiny_huge.outcome', 'ok' if what is None else 'FAIL')
+        if what:
+            ctx.monitor_fail(what, case_desc(case), key=TINY_KEY)
+
+
+# ------------------------------------------------------------------------------------------ entries beyond 1e+-154
+
+def build_edge(seed):
+    """one case of the EDGE class from a str seed 'E<int>': ordinary chains of 2..6 sites with ONE tensor ('one': the
+    first / the last / any) or TWO tensors times 1e+-(150..300) — 'pair': opposite signs, the state stays within
+    1e+-150; 'two': same sign, the norm of the state leaves the float range (full claims for normalise=True and truncate,
+    counted only for normalise=False, see range_limited).  Every entry is a normal float64, but its SQUARE is not: the
+    class of TINY_KEY, drawn at random (every op, QR and SVD, masks, chi / tol mostly non-truncating)."""
+    rng = random.Random(seed)
+    nrng = np.random.default_rng(int(seed[1:]))
+    kind, shapes = gen_shapes(rng, lengths=(2, 2, 3, 3, 4, 4, 5, 6))
+    L = len(shapes)
+    base = rng.choice(['normal', 'int'])
+    if rng.random() < 0.15:
+        tensors = struct_tensors(rng, nrng, shapes)
+    else:
+        tensors = [fill(rng, nrng, s, base) for s in shapes]
+    arr = rng.choice(['one', 'one', 'one', 'pair', 'pair', 'two'])
+    sgn = rng.choice([-1, 1])
+    k1 = sgn * rng.choice([rng.randint(150, 275), rng.randint(150, 275), rng.randint(276, 300)])
+    i = rng.choice([0, L - 1, rng.randrange(L)])
+    ks = [0] * L
+    ks[i] = k1
+    if arr != 'one':
+        j = rng.choice([x for x in range(L) if x != i])
+        ks[j] = (-sgn if arr == 'pair' else sgn) * rng.randint(150, 300)
+    tensors = [t * 10.0 ** k if k else t for t, k in zip(tensors, ks)]
+    mps = [None] * rng.choice([0, 0, 0, 1, 2]) + tensors + [None] * rng.choice([0, 0, 0, 1, 2])
+    op = rng.choice(['lcf', 'lcf', 'rcf', 'rcf', 'trunc'])
+    qr = op != 'trunc' and rng.random() < 0.5
+    if qr:
+        chi, tol = rng.choice([None, None, 0]), rng.choice([None, None, 0.0])
+    else:
+        chi = rng.choice([None, None, None, 0, 7, 7, 2, 1])
+        tol = rng.choice([None, None, None, 0.0, 1e-12, 1e-3])
+    normalise = rng.random() < 0.5
+    mr = rng.random()
+    if mr < 0.6:
+        mask = None
+    elif mr < 0.8:
+        mask = [rng.random() < 0.5 for _ in mps]
+    elif mr < 0.9:
+        mask = [False] * len(mps)
+    else:
+        mask = [True] * len(mps)
+    return {'seed': seed, 'kind': kind, 'style': 'edge:' + arr, 'mps': mps, 'op': op, 'chi': chi, 'tol': tol, 'qr': qr,
+            'normalise': normalise, 'mask': mask, 'malformed': None, 'zero_exact': False, 'edge_exponents': ks}
+
+
+def norm_by_squares_wrong(segs):
+    """the defect of TINY_KEY observed on this very call: a Frobenius norm the code took (its own value for |R|_F, or the
+    last-tensor norm) differs from the scaled nrm2 of the same array — zero / inf / inaccurate because the squares of
+    the entries left the float range.  Returns a description, else None.  Never true for the repaired code (an
+    out-of-window result is repeated on the ravelled array, which IS nrm2)."""
+    for seg in segs:
+        for c in seg['calls']:
+            if 'nrm2' not in c:
+                continue
+            used = c['code'] if c['k'] == 'Q' else c['val']
+            ref = c['nrm2']
+            if used is None or used == ref or SQUARES_SAFE_LO < ref < SQUARES_SAFE_HI:
+                # inside this window the squares of the dominant entries are normal floats: a wrong value there is NOT
+                # this defect (a change of the code that miscomputes norms keeps its own keys)
+                continue
+            if not (np.isfinite(used) and np.isfinite(ref) and abs(used - ref) <= 1e-9 * ref):
+                return 'the code took |{}|_F = {!r} for an array of shape {} whose Frobenius norm is {!r}'.format(
+                    'R' if c['k'] == 'Q' else 'last tensor', used, tuple(c['shape']), ref)
+    return None
+
+
 # ------------------------------------------------------------------------------------------ balanced extreme scales
 
 # per-tensor decimal exponent limit of the BALANCED class: every entry stays well inside 1e+-154, where unscaled norms
@@ -555,27 +788,56 @@ class _LinalgProxy:
 
     def qr(self, a, *args, **kw):
         q, r = self._real.qr(a, *args, **kw)
+        self._last_norm = None
         # oracle of the step: |R|_F of the factor LAPACK returned, taken here (same function the unchanged code
         # calls), independent of what the code goes on to compute from R; 'code' = what the code's own call returned
         self._rec.call({'k': 'Q', 'shape': a.shape, 'qcols': q.shape[1], 'val': float(self._real.norm(r)),
-                        'code': None})
+                        'code': None, 'r': r})
         return q, r
 
     def svd(self, a, *args, **kw):
         u, s, v = self._real.svd(a, *args, **kw)
+        self._last_norm = None
         self._rec.call({'k': 'S', 'shape': a.shape, 's': np.array(s, dtype=float).copy()})
         return u, s, v
 
     def norm(self, a, *args, **kw):
         v = self._real.norm(a, *args, **kw)
+        # ONE oracle entry per LOGICAL norm, whichever way the code takes it.  The unchanged code takes |.|_F by one
+        # call on the 2-d / 4-d array (numpy's sqrt(sum x^2): the squares of entries beyond 1e+-154 under / overflow);
+        # the repaired code repeats an out-of-range result by a second call on the RAVELLED array (BLAS nrm2, scaled).
+        # A call on a 1-d array that immediately follows a norm call whose result was not inside (1e-140, 1e140) — zero,
+        # inf and NaN included — and that carries the same data is that repeat: its result REPLACES the recorded one
+        # (no new entry).  For a Q entry the harness-side value is replaced too: it is still scipy's norm of the R that
+        # LAPACK returned (data verified equal here), not anything the code derived.
+        last, self._last_norm = getattr(self, '_last_norm', None), None
+        if last is not None and getattr(a, 'ndim', 0) == 1 and not args and not kw:
+            arr, res, entry = last
+            if not NORM_LO < res < NORM_HI and a.size == arr.size and np.array_equal(a, np.ravel(arr), equal_nan=True):
+                fv = float(v)
+                if entry['k'] == 'Q':
+                    if entry.get('r') is not None and np.array_equal(np.ravel(entry['r']), a, equal_nan=True):
+                        entry['val'] = fv
+                    entry['code'] = fv
+                else:
+                    entry['val'] = fv
+                entry['renormed'] = True
+                return v
         if getattr(a, 'ndim', 0) == 2:
             c = self._rec.segs[-1]['calls'] if self._rec.segs else []
             if c and c[-1]['k'] == 'Q' and c[-1]['code'] is None:
                 c[-1]['code'] = float(v)
+                entry = c[-1]
             else:
-                self._rec.call({'k': '?', 'shape': a.shape, 'val': float(v)})
+                entry = {'k': '?', 'shape': a.shape, 'val': float(v)}
+                self._rec.call(entry)
         else:
-            self._rec.call({'k': 'L', 'shape': a.shape, 'val': float(v)})
+            entry = {'k': 'L', 'shape': a.shape, 'val': float(v)}
+            self._rec.call(entry)
+        if not args and not kw:
+            self._last_norm = (a, float(v), entry)
+            with np.errstate(all='ignore'):
+                entry['nrm2'] = fro(a)          # scaled reference of the same logical norm (see norm_by_squares_wrong)
         return v
 
 
@@ -873,6 +1135,15 @@ def evaluate(case, stats=None, probe=True):
     info).  A failure is a dict {what, key[, case]} (case: the input it was seen on when that is not `case`)."""
     st = stats if stats is not None else {}
     line, impl, fails, info = _evaluate(case, st)
+    if info.get('sq_wrong'):
+        # the defect of TINY_KEY happened inside this call (only the unrepaired code can get here): whatever clause
+        # failed afterwards is that defect; the oracle the shape model would receive is the corrupted norm — no tie
+        st['norm_by_squares_wrong'] = st.get('norm_by_squares_wrong', 0) + 1
+        if fails or 'X' in line.split()[-1]:
+            first = fails[0]['what'] if fails else 'non-finite norm'
+            fails = [{'what': '{}; consequence: {}'.format(info['sq_wrong'], first), 'key': TINY_KEY}]
+            info['skip'] = 'norm-by-squares-defect'
+            return line, impl, fails, info
     nn = range_limited(case, info) if case['op'] != 'trunc' and not case['normalise'] else None
     if nn is not None:
         info['range_limited'] = 'under' if nn < 1 else 'over'
@@ -943,6 +1214,7 @@ def _evaluate(case, st):
         if v and np.isfinite(v):
             acc *= mp.mpf(float(v))
     info['acc'] = acc
+    info['sq_wrong'] = norm_by_squares_wrong(segs)
     # ---- oracle + trace from the record
     Ltot = len(mps)
     try:
@@ -955,6 +1227,7 @@ def _evaluate(case, st):
     except (ValueError, OverflowError):
         fail('non-finite norm / singular value seen by a decomposition step', 'nan-in-decomposition')
         traces, orc = [[] for _ in segs], ['X']
+        info['trace_failed'] = True
     # the model compares sigma/sigma0 > tol over Q, the code compares the rounded quotient: drop boundary cases
     if tol:
         for seg in segs:
@@ -991,6 +1264,9 @@ def _evaluate(case, st):
             {'lcf': 'left_canonical_form', 'rcf': 'right_canonical_form', 'trunc': 'truncate'}[op], qr, normalise, chi,
             tol, mask, rp), 'result-type')
         return line, 'bad-result-type', fails, info
+    if info.get('trace_failed'):
+        # a step saw an inf / NaN norm or singular value and the call still returned: nothing to tie (failure recorded above)
+        return line, 'non-finite-decomposition-factor', fails, info
     if op == 'trunc':
         out, norm = res
         same = out is mps
@@ -1384,6 +1660,8 @@ def run(ctx):
     seeds = [ctx.rng.getrandbits(48) for _ in range(n)] + special_seeds
     # BALANCED class (drawn last: the draws of the classes above are unchanged)
     seeds += ['B{}'.format(ctx.rng.getrandbits(48)) for _ in range(ctx.scale(1500, 15000))]
+    # EDGE class (drawn after everything else: the draws above are unchanged)
+    seeds += ['E{}'.format(ctx.rng.getrandbits(48)) for _ in range(ctx.scale(1500, 15000))]
     for seed in seeds:
         case = build_case(seed)
         line, impl, fails, info = evaluate(case, stats)
@@ -1399,6 +1677,10 @@ def run(ctx):
             ctx.count('balanced.op/qr/normalise', '{}/qr={}/normalise={}'.format(case['op'], int(case['qr']),
                                                                                  int(case['normalise'])))
             ctx.count('balanced.in_domain', info['range_limited'] is None)
+        elif isinstance(seed, str) and 'edge_exponents' in case:
+            ctx.count('edge.op/qr/normalise', '{}/qr={}/normalise={}'.format(case['op'], int(case['qr']),
+                                                                             int(case['normalise'])))
+            ctx.count('edge.in_domain', info['range_limited'] is None)
         elif isinstance(seed, str):
             ctx.count('systematic.' + case['style'], '{}/mask={}'.format(case['op'], case['mask_kind']))
         ctx.count('outcome', impl.split()[0]); ctx.count('decompositions', info['decomps'])
@@ -1408,7 +1690,7 @@ def run(ctx):
             skipped += 1
             ctx.count('skipped', info['skip'])
             ctx.count('range_limited', info['range_limited'])
-            if info['skip'].startswith('range-limited'):
+            if info['skip'].startswith(('range-limited', 'norm-by-squares')):
                 for f in fails:
                     ctx.monitor_fail(f['what'], case_desc(f.get('case', case)), key=f['key'])
             continue
@@ -1417,6 +1699,8 @@ def run(ctx):
         ctx.case(line, impl, nontrivial=info['decomps'] > 0, meta={'seed': seed})
         for f in fails:
             ctx.monitor_fail(f['what'], case_desc(f.get('case', case)), key=f['key'])
+    # deterministic family of TINY_KEY: last, so that the first counterexample of a replay is one of the random classes
+    tiny_monitor(ctx, stats)
     rules = {
         'finite': 'no NaN/inf in any output tensor or norm (numpy divide/invalid errors raised during the call)',
         'shapes_consistent': 'None pattern and physical dims unchanged, consecutive output bonds equal',
@@ -1454,6 +1738,12 @@ def run(ctx):
                             'zeros_like result, norm 0 from a normalising canonical form',
         'tol_exit_truncate_norm': 'truncate whose SVD sweep kept nothing: |norm / prod|A_i|_F - |dense(unit tensors)|| '
                                   '<= 1e-10 (the norm of the first sweep, as the code has it)',
+        'tiny_or_huge_entries': 'deterministic family (key ' + TINY_KEY + '): O(1) chains with the last / first / a middle '
+                                'tensor times 1e-170, 1e-200, 1e-300, 1e+170 x lcf / rcf (qr x normalise) and truncate: '
+                                'no exception, no NaN / inf, not the zero state, finite norm, |in - norm*out| <= 1e-9 |in| '
+                                '(reference by linearity from the O(1) tensors; no recording wrapper, default errstate)',
+        'norm_by_squares_wrong': 'calls in which a Frobenius norm the code took differs from nrm2 of the same array (0 on '
+                                 'the repaired code); their failures are reported under ' + TINY_KEY,
         'norm_type_probe': 'norm not an mpf: same call re-run on a copy rescaled so that |state| leaves the float range',
     }
     ctx.explored = {k: {'evaluations': v, 'rule': rules.get(k, k), 'exhaustive': False} for k, v in sorted(stats.items())}
@@ -1556,6 +1846,13 @@ def replay(ctx, path):
         ce = v.get('counterexample')
         if ce:
             d = ce.get('input', ce)
+            if isinstance(d, dict) and str(d.get('seed', '')).startswith('T'):
+                case = build_tiny(d['seed'])
+                case['mps'] = [np.array(t['data'], dtype=float).reshape(t['shape']) for t in d['tensors']]
+                what = tiny_check(case)
+                print('replay', TINY_KEY, '->', what)
+                bad += bool(what)
+                continue
             if isinstance(d, dict) and 'tensors' in d:
                 _, impl, fails, _ = evaluate(_case_from_desc(d))
                 print('replay seed', d.get('seed'), d.get('op'), '->', impl[:100], [f['what'] for f in fails][:3])
